@@ -407,6 +407,16 @@ func (c *Ctx) c02Deliver() {
 					}
 					continue
 				}
+				// spilled to a local so that a closure can read it (the loop body as a local
+				// function): the store is the only one, every load is followed
+				if cell := eng.CellOf(x.Addr); cell != nil && x.Val == v {
+					if sts := eng.CellStores(cell); len(sts) == 1 {
+						for _, ld := range eng.CellLoads(cell) {
+							readOnly(ld, depth+1)
+						}
+						continue
+					}
+				}
 				badUse = append(badUse, "stored at "+p.InstrPos(x))
 			case *ssa.DebugRef:
 			case *ssa.Slice:
@@ -746,23 +756,53 @@ func (c *Ctx) c02Read() {
 	if srcRd == nil || smSrc == nil {
 		return
 	}
-	// StoreManager.SourceReader returns sm.Source()
-	okPT := false
-	for _, ret := range successReturns(smSrc) {
-		_ = ret
+	// StoreManager.SourceReader returns sm.Source(): every non-nil reader it returns is the
+	// result of a Source() call on a store message, directly or handed back by a helper of
+	// the package (openSource)
+	var isSourceResult func(v ssa.Value, depth int) bool
+	isSourceResult = func(v ssa.Value, depth int) bool {
+		if depth > 3 {
+			return false
+		}
+		call, idx := eng.CallAndIndex(v)
+		if call == nil {
+			return false
+		}
+		if call.Call.IsInvoke() && call.Call.Method.Name() == "Source" {
+			return idx == 0
+		}
+		rets, g := eng.ReturnedValues(call, idx)
+		if g == nil || eng.FuncPkgPath(g) != eng.FuncPkgPath(smSrc) {
+			return false
+		}
+		n := 0
+		for _, rv := range rets {
+			if eng.IsNilConst(rv) {
+				continue
+			}
+			n++
+			if !isSourceResult(rv, depth+1) {
+				return false
+			}
+		}
+		return n > 0
 	}
+	okPT, nPT := true, 0
 	eng.EachInstr(smSrc, func(in ssa.Instruction) {
 		ret, ok := in.(*ssa.Return)
 		if !ok {
 			return
 		}
 		res := eng.ReturnResults(ret)
-		if e, ok := res[0].(*ssa.Extract); ok {
-			if call, ok := e.Tuple.(*ssa.Call); ok && call.Call.IsInvoke() && call.Call.Method.Name() == "Source" {
-				okPT = true
-			}
+		if eng.IsNilConst(res[0]) {
+			return
+		}
+		nPT++
+		if !isSourceResult(res[0], 0) {
+			okPT = false
 		}
 	})
+	okPT = okPT && nPT > 0
 	r.Check(okPT, "C02/READ/source", "StoreManager.SourceReader", p.Pos(smSrc.Pos()), "returns the store message's Source() unchanged", "StoreManager.SourceReader does not pass Source() through")
 	n := 0
 	for _, H := range c.webHandlers() {
@@ -1076,60 +1116,91 @@ func (c *Ctx) c02Pop3() {
 						}
 					}
 					// does the argument derive from text?
-					ph, isPhi := arg.(*ssa.Phi)
 					if arg == ssa.Value(text) {
 						nSend++
 						okStuff, why = false, "line sent without dot-stuffing at "+p.InstrPos(call)
 						return
 					}
-					if !isPhi {
-						return
-					}
-					derives := false
-					for _, e := range ph.Edges {
-						if e == ssa.Value(text) {
-							derives = true
-						}
-					}
-					if !derives {
+					if !derivesFromValue(arg, text, 0) {
 						return
 					}
 					nSend++
-					stuffed := false
-					for i, e := range ph.Edges {
-						if e == ssa.Value(text) {
-							continue
-						}
-						b, ok := e.(*ssa.BinOp)
-						if !ok || b.Op != token.ADD || b.Y != ssa.Value(text) {
-							okStuff, why = false, "unexpected line transformation at "+p.InstrPos(call)
-							continue
-						}
-						if s, isC := eng.ConstString(b.X); !isC || s != "." {
-							okStuff, why = false, "stuffing prefix is not \".\""
-							continue
-						}
-						// the edge must be under HasPrefix(text, ".") true
-						pred := ph.Block().Preds[i]
-						under := false
+					// edge (pred → blk) is taken only when HasPrefix(text, ".") has the value pol
+					underPrefix := func(pred, blk *ssa.BasicBlock, pol bool) bool {
 						for _, bb := range fn.Blocks {
 							for k := 0; k < len(bb.Succs) && len(bb.Succs) == 2; k++ {
-								cv, pol, ok := eng.CondTruth(bb, k)
-								if !ok || !pol || !eng.EdgeDominates(bb, k, pred) {
+								cv, cpol, ok := eng.CondTruth(bb, k)
+								if !ok || cpol != pol {
 									continue
 								}
-								if hc, ok := cv.(*ssa.Call); ok && eng.CalleeName(hc.Common()) == "strings.HasPrefix" && hc.Call.Args[0] == ssa.Value(text) {
-									if s, isC := eng.ConstString(hc.Call.Args[1]); isC && s == "." {
-										under = true
-									}
+								hc, ok := cv.(*ssa.Call)
+								if !ok || eng.CalleeName(hc.Common()) != "strings.HasPrefix" || hc.Call.Args[0] != ssa.Value(text) {
+									continue
+								}
+								if s, isC := eng.ConstString(hc.Call.Args[1]); !isC || s != "." {
+									continue
+								}
+								if eng.EdgeDominates(bb, k, pred) || pred == bb && bb.Succs[k] == blk {
+									return true
 								}
 							}
 						}
-						if !under {
-							okStuff, why = false, "'.'+line is not selected by strings.HasPrefix(line, \".\")"
-						} else {
-							stuffed = true
+						return false
+					}
+					stuffed := false
+					switch x := arg.(type) {
+					case *ssa.Phi:
+						// φ(line, "."+line)
+						for i, e := range x.Edges {
+							pred := x.Block().Preds[i]
+							if e == ssa.Value(text) {
+								if !underPrefix(pred, x.Block(), false) {
+									okStuff, why = false, "the unstuffed line can be selected although strings.HasPrefix(line, \".\") holds"
+								}
+								continue
+							}
+							b, ok := e.(*ssa.BinOp)
+							if !ok || b.Op != token.ADD || b.Y != ssa.Value(text) {
+								okStuff, why = false, "unexpected line transformation at "+p.InstrPos(call)
+								continue
+							}
+							if s, isC := eng.ConstString(b.X); !isC || s != "." {
+								okStuff, why = false, "stuffing prefix is not \".\""
+								continue
+							}
+							if !underPrefix(pred, x.Block(), true) {
+								okStuff, why = false, "'.'+line is not selected by strings.HasPrefix(line, \".\")"
+							} else {
+								stuffed = true
+							}
 						}
+					case *ssa.BinOp:
+						// φ("", ".") + line
+						pp, isPhi := x.X.(*ssa.Phi)
+						if x.Op != token.ADD || x.Y != ssa.Value(text) || !isPhi {
+							okStuff, why = false, "unexpected line transformation at "+p.InstrPos(call)
+							break
+						}
+						for i, e := range pp.Edges {
+							pred := pp.Block().Preds[i]
+							sv, isC := eng.ConstString(e)
+							switch {
+							case isC && sv == "":
+								if !underPrefix(pred, pp.Block(), false) {
+									okStuff, why = false, "the empty prefix can be selected although strings.HasPrefix(line, \".\") holds"
+								}
+							case isC && sv == ".":
+								if !underPrefix(pred, pp.Block(), true) {
+									okStuff, why = false, "the '.' prefix is not selected by strings.HasPrefix(line, \".\")"
+								} else {
+									stuffed = true
+								}
+							default:
+								okStuff, why = false, "stuffing prefix is not \"\" or \".\""
+							}
+						}
+					default:
+						okStuff, why = false, "unexpected line transformation at "+p.InstrPos(call)
 					}
 					if !stuffed && okStuff {
 						okStuff, why = false, "no dot-stuffed alternative for the sent line"
@@ -1598,6 +1669,42 @@ func isFreshEmptySlice(v ssa.Value) bool {
 	case *ssa.Slice:
 		if al, ok := x.X.(*ssa.Alloc); ok {
 			return strings.HasPrefix(eng.ShortType(al.Type()), "*[0]")
+		}
+	}
+	return false
+}
+
+// derivesFromValue: v is built from w (through string concatenation, phis, conversions or calls
+// that take it as an argument).
+func derivesFromValue(v, w ssa.Value, depth int) bool {
+	if v == w {
+		return true
+	}
+	if depth > 6 {
+		return false
+	}
+	switch x := v.(type) {
+	case *ssa.BinOp:
+		return derivesFromValue(x.X, w, depth+1) || derivesFromValue(x.Y, w, depth+1)
+	case *ssa.Phi:
+		for _, e := range x.Edges {
+			if derivesFromValue(e, w, depth+1) {
+				return true
+			}
+		}
+	case *ssa.Convert:
+		return derivesFromValue(x.X, w, depth+1)
+	case *ssa.ChangeType:
+		return derivesFromValue(x.X, w, depth+1)
+	case *ssa.MakeInterface:
+		return derivesFromValue(x.X, w, depth+1)
+	case *ssa.Slice:
+		return derivesFromValue(x.X, w, depth+1)
+	case *ssa.Call:
+		for _, a := range x.Call.Args {
+			if derivesFromValue(a, w, depth+1) {
+				return true
+			}
 		}
 	}
 	return false
